@@ -199,7 +199,7 @@ func clonePaths(p [][]*big.Int) [][]*big.Int {
 var InsClasses = []string{
 	"valid/first-free", "valid/last-leaves", "valid/random-pos", "valid/after-occupied", "valid/commitment-zero", "valid/commitment-extremes", "valid/all-zero-commitments",
 	"inv/start-past-end", "inv/start-2^32", "inv/start-field-wrap", "inv/occupied-genuine-path", "inv/occupied-other-path",
-	"inv/wrong-pre", "inv/stale-paths", "inv/post-short", "inv/post-permuted", "inv/post-random", "inv/post-is-pre",
+	"inv/wrong-pre", "inv/stale-paths", "inv/stale-paths-honest-post", "inv/later-path-garbage", "inv/post-short", "inv/post-permuted", "inv/post-random", "inv/post-is-pre",
 	"inv/sibling-corrupt", "inv/path-reused", "inv/id-swapped", "inv/start-off-by-one",
 }
 
@@ -213,7 +213,7 @@ func (e Env) Insertion(r *rand.Rand, class string, depth, batch int) (c *Ins, ok
 		ids[i] = e.commitment(r)
 	}
 	switch class {
-	case "inv/post-short", "inv/post-permuted", "inv/id-swapped", "inv/stale-paths", "inv/path-reused":
+	case "inv/post-short", "inv/post-permuted", "inv/id-swapped", "inv/stale-paths", "inv/stale-paths-honest-post", "inv/later-path-garbage", "inv/path-reused":
 		// these need distinct non-zero commitments to be what their name says
 		seen := map[string]bool{}
 		for i := range ids {
@@ -336,7 +336,7 @@ func (e Env) Insertion(r *rand.Rand, class string, depth, batch int) (c *Ins, ok
 			c.Pre.Mod(c.Pre, e.Mod)
 		}
 		ok = true
-	case "inv/stale-paths":
+	case "inv/stale-paths", "inv/stale-paths-honest-post":
 		if batch < 2 {
 			return c, false
 		}
@@ -348,11 +348,28 @@ func (e Env) Insertion(r *rand.Rand, class string, depth, batch int) (c *Ins, ok
 		for i := range ids {
 			c.Proofs = append(c.Proofs, t.Path(s+uint64(i))) // all from the pre-state
 		}
-		// what a circuit that does not thread the running root would compute
-		c.Post = ref.Fold(e.H, ids[batch-1], s+uint64(batch-1), c.Proofs[batch-1])
-		if r.Intn(2) == 0 {
-			_, c.Post, _ = honestInsertion(t, s, ids) // or the honest post-root with stale paths
+		if class == "inv/stale-paths" {
+			// what a circuit that does not thread the running root would compute
+			c.Post = ref.Fold(e.H, ids[batch-1], s+uint64(batch-1), c.Proofs[batch-1])
+		} else {
+			_, c.Post, _ = honestInsertion(t, s, ids) // the honest post-root with stale paths
 		}
+		ok = true
+	case "inv/later-path-garbage":
+		// the first slot is proved genuinely; a later slot presents a path that authenticates nothing, and the
+		// post-root is what folding the LAST slot's commitment along the LAST presented path gives (what a circuit
+		// that only checks emptiness for the first slot of a batch would compute)
+		if batch < 2 || !build(r.Intn(4)) {
+			return c, false
+		}
+		s := c.Start.Uint64()
+		k := 1 + r.Intn(batch-1)
+		c.Proofs = clonePaths(c.Proofs)
+		for l := range c.Proofs[k] {
+			c.Proofs[k][l] = e.elem(r)
+		}
+		c.Post = ref.Fold(e.H, ids[batch-1], s+uint64(batch-1), c.Proofs[batch-1])
+		c.Note = fmt.Sprintf("garbage path in slot %d", k)
 		ok = true
 	case "inv/post-short", "inv/post-permuted", "inv/post-random", "inv/post-is-pre":
 		if !build(r.Intn(4)) {
